@@ -6,6 +6,7 @@
    virtual time in Q).
    process_wait W E pid o tmo fuel t0 = (result, object afterwards, return instant, sleep() arguments). *)
 From PV Require Import C15.Spec C15.Proofs C15.ProofsProcs C15.ProofsTerm C15.ProofsOracle C15.ProofsPopen.
+From PV Require Import C15.PyGen Gen.C15_Tables C15.ProofsGen.
 From Coq Require Import Permutation.
 Open Scope Z_scope.
 Open Scope Q_scope.
@@ -322,3 +323,28 @@ Theorem C15_wait_procs_of_meets_oracle : forall ps cb fuel order,
   spec_procs_in input ps cb start tmo exc gone alive (g_rc g) (g_cb g) (g_now g) = true.
 Proof. exact wait_procs_of_meets_oracle. Qed.
 Print Assumptions C15_wait_procs_of_meets_oracle.
+
+(* ---- Round 2: the model's wait_pid is the source's wait_pid.  gen_wait_pid (Gen/C15_Tables.v) is translated on every
+   run from psutil/_psposix.py of the tree under check (props/_c15_gen.py, fail-closed); wait_pid_gen is the
+   interpreter of C15/PyGen.v.  For every kernel (arbitrary waitpid / pid_exists answers), PID > 0, timeout, fuel, start
+   instant: same result and same final state (clock, interval, waitpid-call count, every sleep() argument). *)
+Theorem C15_gen_wait_pid_is_model : forall waitpid pid_exists pid timeout fuel start calls0,
+  (pid <=? 0)%Z = false ->
+  gproj (wait_pid_gen gen_wait_pid waitpid pid_exists pid timeout fuel start calls0) =
+  Some (let '(r, s) := wait_pid waitpid pid_exists pid timeout fuel start calls0 in (r, Some s)).
+Proof. exact gen_wait_pid_correct. Qed.
+Print Assumptions C15_gen_wait_pid_is_model.
+
+(* pid <= 0: the translated program raises ValueError before it binds `interval`, asks the kernel or reads the clock *)
+Theorem C15_gen_wait_pid_bad_pid : forall waitpid pid_exists pid timeout fuel start calls0,
+  (pid <=? 0)%Z = true ->
+  wait_pid_gen gen_wait_pid waitpid pid_exists pid timeout fuel start calls0 = GDone RValueError (init_env start calls0) /\
+  fst (wait_pid waitpid pid_exists pid timeout fuel start calls0) = RValueError.
+Proof. exact gen_wait_pid_bad_pid. Qed.
+Print Assumptions C15_gen_wait_pid_bad_pid.
+
+(* the translated program never leaves the modelled fragment (no unbound stop_at, no arithmetic on None) *)
+Theorem C15_gen_wait_pid_modelled : forall waitpid pid_exists pid timeout fuel start calls0,
+  wait_pid_gen gen_wait_pid waitpid pid_exists pid timeout fuel start calls0 <> GUnmodelled.
+Proof. exact gen_wait_pid_modelled. Qed.
+Print Assumptions C15_gen_wait_pid_modelled.
